@@ -1765,6 +1765,15 @@ jdf_generate_function_without_expression(const jdf_t *jdf,
     info.suffix = "";
     info.assignments = "locals";
 
+    {
+        /* The expression is not a range: its local definitions, if any, are plain values
+         * that must be visible when the expression is evaluated. */
+        jdf_expr_t *ld;
+        for(ld = jdf_expr_lv_first(e->local_variables); NULL != ld; ld = jdf_expr_lv_next(e->local_variables, ld)) {
+            coutput("  const int %s = %s; (void)%s;\n", ld->alias, dump_expr((void**)ld, &info), ld->alias);
+        }
+    }
+
     coutput("  (void)__parsec_tp; (void)locals;\n"
             "  return %s;\n"
             "}\n",
@@ -3147,10 +3156,12 @@ static void jdf_generate_startup_tasks(const jdf_t *jdf, const jdf_function_entr
                     nesting+=2;
                 } else {
                     coutput("%s  { /* block for the local variable '%s' */\n"
+                            "%s     int %s;\n"
                             "%s     this_task->locals.ldef[%d].value = %s;\n"
                             "%s   restore_context_%d:\n"
                             "%s     %s = this_task->locals.ldef[%d].value;\n"
                             "%s     if( restore_context ) goto restore_context_%d;\n",
+                            indent(nesting), ld->alias,
                             indent(nesting), ld->alias,
                             indent(nesting), ld->ldef_index, dump_expr((void**)ld, &info1),
                             indent(nesting), ctx_level,
